@@ -297,11 +297,15 @@ def check_case(case):
                 discs.append(Disc("get_tag_list.controller", f"{names[:6]} != {exp[:6]}"))
         elif variant == "one-program" and pd["programs"]:
             prog = pd["programs"][0]["name"]
-            tl = plc.get_tag_list(program=prog)
+            # the scope may be given as the controller (and read()) spell it, "Program:<name>": the request accepts that spelling
+            spelled = "Program:" + prog if case.get("alt", {}).get("page_size", 0) % 2 else prog
+            tl = plc.get_tag_list(program=spelled)
             names = sorted(x["tag_name"] for x in tl)
             exp = sorted(expected_tags(p, [prog]))
             if names != exp:
-                discs.append(Disc("get_tag_list.program", f"program {prog}: {names[:6]} != {exp[:6]}"))
+                discs.append(Disc("get_tag_list.program", f"program {spelled}: {names[:6]} != {exp[:6]}"))
+            elif sorted(plc.tags) != exp:
+                discs.append(Disc("get_tag_list.program.cache", f"program {spelled}: tags holds {sorted(plc.tags)[:6]}, expected {exp[:6]}"))
         plc.close()
     finally:
         harness.uninstall()
